@@ -82,7 +82,19 @@ def _now(tz=None):
     return value
 
 
-class SimDateTime(_real_dt.datetime):
+class _AnyDateTime(type):
+    """isinstance / issubclass against the stand-in answer for the real class:
+    library code that asks ``isinstance(x, datetime.datetime)`` must get the
+    answer it gets outside the simulator."""
+
+    def __instancecheck__(cls, obj):
+        return isinstance(obj, _real_dt.datetime)
+
+    def __subclasscheck__(cls, sub):
+        return issubclass(sub, _real_dt.datetime)
+
+
+class SimDateTime(_real_dt.datetime, metaclass=_AnyDateTime):
     @classmethod
     def now(cls, tz=None):  # noqa: D102
         return _now(tz)
@@ -122,6 +134,19 @@ UUIDS = _UuidState()
 def set_uuid_stream(stream: int) -> None:
     UUIDS.stream = stream & 0xFFFFFFFF
     UUIDS.counter = 0
+
+
+class _UuidShim:
+    """Stands in for the ``uuid`` module (under whatever name a library
+    module imported it)."""
+
+    def __getattr__(self, name):
+        if name == "uuid4":
+            return sim_uuid4
+        return getattr(_real_uuid, name)
+
+
+UUID_SHIM = _UuidShim()
 
 
 def sim_uuid4():
@@ -504,21 +529,49 @@ def install(aoef: bool = True, audio: bool = False) -> dict:
                          "time.monotonic_ns", "time.perf_counter",
                          "time.sleep"]
     if aoef:
+        # every global of every soundevent module that is the datetime /
+        # uuid module, the datetime class or uuid4, under whatever name
+        swap = {
+            id(_real_dt): ("datetime", DATETIME_SHIM),
+            id(_real_dt.datetime): ("datetime", SimDateTime),
+            id(_real_uuid): ("uuid4", UUID_SHIM),
+            id(_real_uuid.uuid4): ("uuid4", sim_uuid4),
+        }
         for name, module in sorted(sys.modules.items()):
             if module is None or not (
                 name == "soundevent" or name.startswith("soundevent.")
             ):
                 continue
-            if getattr(module, "datetime", None) is _real_dt:
-                module.datetime = DATETIME_SHIM
-                INSTALLED["datetime"].append(name)
-            if getattr(module, "uuid4", None) is _real_uuid.uuid4:
-                module.uuid4 = sim_uuid4
-                INSTALLED["uuid4"].append(name)
+            for attr, value in list(vars(module).items()):
+                if id(value) in swap and not attr.startswith("__"):
+                    kind, stand_in = swap[id(value)]
+                    setattr(module, attr, stand_in)
+                    INSTALLED[kind].append(f"{name}.{attr}")
     if audio:
-        import soundevent.audio.io as audio_io  # noqa: PLC0415
+        # the soundfile module itself is the seam: whatever module of the
+        # library imports it, at import time or lazily inside a function,
+        # and under whatever name, gets the fault points
+        import soundfile as real_sf  # noqa: PLC0415
 
-        if not isinstance(audio_io.sf, _SfShim):
-            audio_io.sf = _SfShim(audio_io.sf)
-            INSTALLED["sf"].append("soundevent.audio.io")
+        if isinstance(real_sf, _SfShim):
+            shim, real_sf = real_sf, real_sf._real
+        else:
+            shim = _SfShim(real_sf)
+            sys.modules["soundfile"] = shim
+        swap = {
+            id(real_sf): shim,
+            id(real_sf.SoundFile): shim.SoundFile,
+            id(real_sf.read): shim.read,
+            id(real_sf.blocks): shim.blocks,
+            id(real_sf.info): shim.info,
+        }
+        for name, module in sorted(sys.modules.items()):
+            if module is None or not (
+                name == "soundevent" or name.startswith("soundevent.")
+            ):
+                continue
+            for attr, value in list(vars(module).items()):
+                if id(value) in swap and not attr.startswith("__"):
+                    setattr(module, attr, swap[id(value)])
+                    INSTALLED["sf"].append(f"{name}.{attr}")
     return INSTALLED
